@@ -345,3 +345,36 @@ Proof.
     rewrite ok_cons in H. cbn in H. rewrite Ef in H. cbn in H. exact H.
 Qed.
 End Reduce.
+
+(* ---- non-vacuity ------------------------------------------------------------------------------
+   Two calls that increment a counter (field 1) under the exclusive lock and return the value they
+   saw, and one call that reads it under the shared lock after looking at a never-written field 0. *)
+Definition ex_exempt (f : nat) : bool := Nat.eqb f 0.
+Definition ex_inc : prog nat nat :=
+  PAcq nat nat MW (PRd nat nat 1 (fun v => PWr nat nat 1 (S v) (PRel nat nat MW (PRet nat nat v)))).
+Definition ex_get : prog nat nat :=
+  PRd nat nat 0 (fun _ => PAcq nat nat MR (PRd nat nat 1 (fun v => PRel nat nat MR (PRet nat nat v)))).
+
+Example ex_progs_disciplined : Forall (pok nat nat ex_exempt None) [ex_inc; ex_get; ex_inc].
+Proof.
+  assert (pok nat nat ex_exempt None ex_inc) as Hinc.
+  { cbn. split; [reflexivity|]. split; [right; discriminate|]. intro v. repeat split; reflexivity. }
+  assert (pok nat nat ex_exempt None ex_get) as Hget.
+  { cbn. split; [left; reflexivity|]. intros _. split; [reflexivity|]. split; [right; discriminate|].
+    intro v. split; reflexivity. }
+  constructor; [exact Hinc|constructor; [exact Hget|constructor; [exact Hinc|constructor]]].
+Qed.
+
+(* a reachable micro-step configuration in which the first call is in the middle of its section
+   (it has read the counter, not yet written it) while the reader has done its unlocked read *)
+Example ex_progs_interleave :
+  exists c, dsteps nat nat (dinit nat nat (fun _ => 7) [ex_inc; ex_get; ex_inc]) c /\
+            dwl nat nat c = true /\ length (dts nat nat c) = 3.
+Proof.
+  eexists. split.
+  - eapply dsteps_trans; [eapply dsteps_trans; [eapply dsteps_trans; [apply dsteps_refl|]|]|].
+    + eapply (DRd nat nat [_] [_] None 0). reflexivity.
+    + eapply (DAcqW nat nat [] [_; _] None); reflexivity.
+    + eapply (DRd nat nat [] [_; _] (Some MW) 1). reflexivity.
+  - split; reflexivity.
+Qed.
